@@ -20,10 +20,27 @@ T10 == <<97, 13, 10, 98>>        \* a<CR><LF>b
 T11 == <<39, 37, 35>>            \* '%#        apostrophe, percent, hash
 T12 == <<65, 98>>                \* Ab         mixed case (equals "aB")
 T13 == <<233, 128512, 26085>>    \* e-acute, an emoji beyond U+FFFF, a CJK character
+\* text that is spelled like an error value is text: "#N/A"&"x" is "#N/Ax"
+T14 == <<35, 78, 47, 65>>                    \* #N/A
+T15 == <<35, 82, 69, 70, 33>>                \* #REF!
+T16 == <<35, 69, 77, 80, 84, 89, 33>>        \* #EMPTY!   looks like an error value, is none
 
-MCLit == [x \in {"2", "3", "0.5", "1E2", "1E+2", "1.5E1", "1E-1", "TRUE", "FALSE",
+\* number literals by their characters; each denotes the number that the
+\* same characters denote as numeric text (ExcelValues!ParseNum)
+Numerals == [N1 |-> <<48, 48, 55>>,          \* 007
+             N2 |-> <<48, 56>>,              \* 08       (no octal numeral either)
+             N3 |-> <<48, 49, 48>>,          \* 010
+             N4 |-> <<48, 48, 46, 53>>,      \* 00.5
+             N5 |-> <<49, 46, 53, 48>>,      \* 1.50
+             N6 |-> <<46, 53>>,              \* .5
+             N7 |-> <<50, 46>>,              \* 2.
+             N8 |-> <<49, 69, 48, 50>>,      \* 1E02
+             N9 |-> <<48, 48>>]              \* 00
+
+NamedLit == [x \in {"2", "3", "0.5", "1E2", "1E+2", "1.5E1", "1E-1", "TRUE", "FALSE",
                  "#N/A", "#DIV/0!", "#REF!",
-                 "T1", "T2", "T3", "T4", "T5", "T6", "T7", "T8", "T9", "T10", "T11", "T12", "T13"} |->
+                 "T1", "T2", "T3", "T4", "T5", "T6", "T7", "T8", "T9", "T10", "T11", "T12", "T13",
+                 "T14", "T15", "T16"} |->
    CASE x = "2" -> IntV(2) [] x = "3" -> IntV(3) [] x = "0.5" -> Num(1, 2)
      [] x = "1E2" -> IntV(100) [] x = "1E+2" -> IntV(100) [] x = "1.5E1" -> IntV(15)
      [] x = "1E-1" -> Num(1, 10)
@@ -33,7 +50,15 @@ MCLit == [x \in {"2", "3", "0.5", "1E2", "1E+2", "1.5E1", "1E-1", "TRUE", "FALSE
      [] x = "T4" -> Text(T4) [] x = "T5" -> Text(T5) [] x = "T6" -> Text(T6)
      [] x = "T7" -> Text(T7) [] x = "T8" -> Text(T8) [] x = "T9" -> Text(T9)
      [] x = "T10" -> Text(T10) [] x = "T11" -> Text(T11) [] x = "T12" -> Text(T12)
-     [] x = "T13" -> Text(T13)]
+     [] x = "T13" -> Text(T13) [] x = "T14" -> Text(T14) [] x = "T15" -> Text(T15)
+     [] x = "T16" -> Text(T16)]
+MCLit == NamedLit @@ [x \in DOMAIN Numerals |-> ParseNum(Numerals[x])]
+
+\* Known deviation (finding C02_r3_2): pycel represents an error value by
+\* the text of its code and the empty operand by the text #EMPTY!, so the
+\* text literals spelled that way are taken for the error value / for blank.
+MCLitDev == [x \in {"T14", "T15", "T16"} |->
+   CASE x = "T14" -> Err("#N/A") [] x = "T15" -> Err("#REF!") [] x = "T16" -> Blank]
 
 MCRefs == {"A1", "B1"}
 MCEnvs == << [A1 |-> IntV(-1),  B1 |-> Text(<<51>>)],       \* -1, "3"
@@ -47,7 +72,7 @@ PrecOperands == {"2", "3", "1E2"}
 LitBinary == {"&", "=", "+", "^"}
 
 \* the tables the harness needs to spell tokens and to bind references
-ASSUME PrintT(ToJson([tables |-> [lit |-> MCLit, envs |-> MCEnvs]]))
+ASSUME PrintT(ToJson([tables |-> [lit |-> MCLit, num |-> Numerals, envs |-> MCEnvs]]))
 
 \* fixed points of the reference semantics (documentation that TLC checks)
 V(t) == Value(t, MCEnvs[1])
@@ -67,6 +92,14 @@ ASSUME Examples ==
    /\ V(<<"IF(", "2", ">", "3", ",", "2", ",", "3", ")", "%">>) = Num(3, 100)
    /\ V(<<"T1", "&", "T9">>) = Text(<<97, 34, 98, 92, 34>>)
    /\ V(<<"T12", "=", "T12">>) = TRUEV
+   /\ V(<<"N1">>) = IntV(7) /\ V(<<"N2", "=", "N3">>) = FALSEV        \* 08 = 010 is 8 = 10
+   /\ V(<<"N4">>) = Num(1, 2) /\ V(<<"N5">>) = Num(3, 2) /\ V(<<"N6">>) = Num(1, 2)
+   /\ V(<<"N7">>) = IntV(2) /\ V(<<"N8">>) = IntV(100) /\ V(<<"N9">>) = IntV(0)
+   /\ V(<<"u-", "N1", "^", "2">>) = IntV(49)
+   /\ V(<<"T14", "&", "T7">>) = Text(T14)                          \* "#N/A"&"" is text
+   /\ V(<<"T15", "+", "2">>) = VALUE                               \* "#REF!"+2
+   /\ V(<<"T15", "=", "T15">>) = TRUEV
+   /\ V(<<"T16">>) = Text(T16)
    /\ Tree(<<"u-", "2", "%", "^", "3">>) =
         <<"bin", "^", <<"un", "%", <<"un", "u-", <<"lit", "2">>>>>>, <<"lit", "3">>>>
    /\ Unparse(<<"bin", "^", <<"bin", "^", <<"lit", "2">>, <<"lit", "3">>>>, <<"lit", "2">>>>)
